@@ -269,6 +269,21 @@ theorem sum_ite_eq_valOr0 (l : List (σ × β)) (h : (dkeys l).Nodup) (s : σ) :
   unfold valOr0 dgetD
   cases dget? l s <;> rfl
 
+/-! ### written terms of a reaction string: merging sums the multiplicities -/
+
+omit [AddCommMonoid β] in
+/-- `_parse_multiplicity`: the merged coefficient of `s` is the SUM of the coefficients of all written terms naming `s` -/
+theorem coef_mergeTerms (terms : List (ℕ × σ)) (s : σ) :
+    dgetD (mergeTerms terms) s 0 = (terms.map fun t => if t.2 = s then t.1 else 0).sum := by
+  have h : mergeTerms terms = (terms.map fun t => (t.2, t.1)).foldl (fun d kv => dacc d kv.1 kv.2) [] := by
+    unfold mergeTerms
+    rw [List.foldl_map]
+  have := valOr0_foldl_dacc (β := ℕ) (terms.map fun t => (t.2, t.1)) [] s
+  rw [h]
+  unfold valOr0 at this
+  rw [this, List.map_map]
+  simp [dgetD, Function.comp_def]
+
 end Acc
 
 /-! ## Part 2: closed forms over a commutative ring -/
